@@ -1543,6 +1543,35 @@ func index(context languages.Context) int {
 	sort.Slice(schemas, func(i, j int) bool { return schemas[i].Package < schemas[j].Package })
 	return len(schemas)
 }`, c07ContextSortedInPlace)
+	selfTest(ctx, r, "copycheck/jenny-context-not-sorted-in-place", "builder_options_sorted_in_place", true, `package fx
+import (
+	"sort"
+	"github.com/grafana/cog/internal/ast"
+)
+func reference(builder ast.Builder) int {
+	sort.Slice(builder.Options, func(i, j int) bool { return builder.Options[i].Name < builder.Options[j].Name })
+	return len(builder.Options)
+}`, c07ContextSortedInPlace)
+	selfTest(ctx, r, "copycheck/jenny-context-not-sorted-in-place", "context_builders_visited_in_place", true, `package fx
+import (
+	"github.com/grafana/cog/internal/ast"
+	"github.com/grafana/cog/internal/languages"
+)
+func generate(context languages.Context) (int, error) {
+	visitor := ast.BuilderVisitor{}
+	builders, err := visitor.Visit(context.Schemas, context.Builders)
+	return len(builders), err
+}`, c07ContextSortedInPlace)
+	selfTest(ctx, r, "copycheck/jenny-context-not-sorted-in-place", "context_builders_copy_visited", false, `package fx
+import (
+	"github.com/grafana/cog/internal/ast"
+	"github.com/grafana/cog/internal/languages"
+)
+func generate(context languages.Context) (int, error) {
+	visitor := ast.BuilderVisitor{}
+	builders, err := visitor.Visit(context.Schemas, append(ast.Builders(nil), context.Builders...))
+	return len(builders), err
+}`, c07ContextSortedInPlace)
 }
 
 func c07ContextSortedInPlace(ctx *Ctx, r *Report) {
@@ -1558,6 +1587,13 @@ func c07ContextSortedInPlace(ctx *Ctx, r *Report) {
 				for _, nm := range f.Names {
 					if nt := namedOf(info.TypeOf(nm)); nt != nil && nt.Obj().Name() == "Context" && nt.Obj().Pkg() != nil && strings.HasSuffix(nt.Obj().Pkg().Path(), "internal/languages") {
 						params[info.Defs[nm]] = true
+					}
+					// a builder, an option, a schema… handed over by value by a jenny that took it out of the context: the
+					// struct is a copy, its slices are not
+					if nt, ok := info.TypeOf(nm).(*types.Named); ok && nt.Obj().Pkg() != nil && strings.HasSuffix(nt.Obj().Pkg().Path(), "internal/ast") && (strings.Contains(p.PkgPath, "/internal/jennies") || strings.Contains(p.PkgPath, "/internal/veriffixture/")) {
+						if _, isStruct := nt.Underlying().(*types.Struct); isStruct {
+							params[info.Defs[nm]] = true
+						}
 					}
 				}
 			}
@@ -1577,7 +1613,23 @@ func c07ContextSortedInPlace(ctx *Ctx, r *Report) {
 			if !strings.HasPrefix(fn.Name(), "Sort") && fn.Name() != "Slice" && fn.Name() != "SliceStable" && fn.Name() != "Strings" && fn.Name() != "Stable" && fn.Name() != "Reverse" {
 				return true
 			}
-			root := ast.Unparen(c.Args[0])
+			sorted := ast.Unparen(c.Args[0])
+			// a local that only names a slice of the parameter (`options := builder.Options`) is that slice
+			if lid, ok := sorted.(*ast.Ident); ok {
+				ast.Inspect(fd.Body, func(k ast.Node) bool {
+					if as, ok := k.(*ast.AssignStmt); ok && as.Tok == token.DEFINE && len(as.Lhs) == len(as.Rhs) {
+						for i, l := range as.Lhs {
+							if d, ok := l.(*ast.Ident); ok && info.Defs[d] == objOf(info, lid) {
+								if _, isSel := ast.Unparen(as.Rhs[i]).(*ast.SelectorExpr); isSel {
+									sorted = ast.Unparen(as.Rhs[i])
+								}
+							}
+						}
+					}
+					return true
+				})
+			}
+			root := sorted
 			for {
 				if s, ok := root.(*ast.SelectorExpr); ok {
 					root = ast.Unparen(s.X)
@@ -1586,12 +1638,51 @@ func c07ContextSortedInPlace(ctx *Ctx, r *Report) {
 				break
 			}
 			id, ok := root.(*ast.Ident)
-			if !ok || !params[objOf(info, id)] || root == ast.Unparen(c.Args[0]) {
+			if !ok || !params[objOf(info, id)] || root == sorted {
 				return true
 			}
 			n++
 			r.Bad("copycheck/jenny-context-not-sorted-in-place", fmt.Sprintf("%s sorts %s", ctx.FuncName(obj), exprString(c.Args[0])), c.Pos(),
 				fmt.Sprintf("%s sorts %s in place: languages.Context travels by value and shares that slice with every other jenny — the jennies that run afterwards see another order than without this one (a file rendered from extra_files_templates changes with api_reference: true)", ctx.FuncName(obj), exprString(c.Args[0])))
+			return true
+		})
+	})
+	// a jenny that transforms the schemas / builders of the context does so on a copy: a compiler pass goes through
+	// compiler.Passes.Process (which duplicates first), the builder visitor is given its own list
+	ctx.AllFuncDecls(func(p *packages.Package, fd *ast.FuncDecl, obj *types.Func) {
+		if fd.Body == nil || !strings.Contains(p.PkgPath, "/internal/jennies") && !strings.Contains(p.PkgPath, "/internal/veriffixture/") {
+			return
+		}
+		info := p.TypesInfo
+		isContextField := func(e ast.Expr, field string) bool {
+			sel, ok := ast.Unparen(e).(*ast.SelectorExpr)
+			if !ok || sel.Sel.Name != field {
+				return false
+			}
+			nt := namedOf(info.TypeOf(sel.X))
+			return nt != nil && nt.Obj().Name() == "Context" && nt.Obj().Pkg() != nil && strings.HasSuffix(nt.Obj().Pkg().Path(), "internal/languages")
+		}
+		ast.Inspect(fd.Body, func(m ast.Node) bool {
+			c, ok := m.(*ast.CallExpr)
+			if !ok {
+				return true
+			}
+			sel, ok := c.Fun.(*ast.SelectorExpr)
+			if !ok {
+				return true
+			}
+			switch {
+			case sel.Sel.Name == "Process" && len(c.Args) == 1 && isContextField(c.Args[0], "Schemas"):
+				if namedName(info.TypeOf(sel.X)) != "Passes" {
+					n++
+					r.Bad("copycheck/jenny-context-not-sorted-in-place", fmt.Sprintf("%s runs %s on the schemas of the context", ctx.FuncName(obj), exprString(sel.X)), c.Pos(),
+						fmt.Sprintf("%s runs a compiler pass directly on context.Schemas: nothing duplicates them first (compiler.Passes.Process does), so the pass rewrites the schemas every other jenny — and the next generation from the same context — is given: the PHP type hints end up in the comments seen by extra_files_templates, and twice in a second generation", ctx.FuncName(obj)))
+				}
+			case sel.Sel.Name == "Visit" && len(c.Args) == 2 && isContextField(c.Args[1], "Builders") && namedName(info.TypeOf(sel.X)) == "BuilderVisitor":
+				n++
+				r.Bad("copycheck/jenny-context-not-sorted-in-place", fmt.Sprintf("%s visits the builders of the context in place", ctx.FuncName(obj)), c.Pos(),
+					fmt.Sprintf("%s hands context.Builders itself to BuilderVisitor.Visit, which writes every visited builder back into the list it was given: the jennies that run afterwards see the builders as this jenny rewrote them", ctx.FuncName(obj)))
+			}
 			return true
 		})
 	})
